@@ -3,6 +3,7 @@ package c12
 import (
 	"encoding/binary"
 	"fmt"
+	"io"
 	"math/big"
 	"sort"
 
@@ -12,7 +13,6 @@ import (
 	"github.com/zenon-network/go-zenon/common/types"
 	"github.com/zenon-network/go-zenon/pow"
 	"github.com/zenon-network/go-zenon/vm"
-	"github.com/zenon-network/go-zenon/vm/constants"
 
 	"verifmc/internal/xs"
 )
@@ -68,13 +68,35 @@ func refDataHash(addr types.Address, prev types.Hash) [32]byte {
 	return sha3.Sum256(buf)
 }
 
+// one reusable sha3-256 state (workers are single-threaded); squeezing through io.Reader avoids the clone Sum makes
+var (
+	workHasher = sha3.New256()
+	workReader = workHasher.(io.Reader)
+)
+
 func refWork(nonce uint64, dh *[32]byte) uint64 {
 	var buf [40]byte
+	var out [8]byte
 	binary.LittleEndian.PutUint64(buf[:8], nonce)
 	copy(buf[8:], dh[:])
-	h := sha3.Sum256(buf[:])
-	// little-endian integer of the first 8 bytes, computed with math/big to stay independent of the byte tricks
-	return binary.LittleEndian.Uint64(h[:8])
+	workHasher.Reset()
+	workHasher.Write(buf[:])
+	workReader.Read(out[:])
+	return binary.LittleEndian.Uint64(out[:])
+}
+
+func init() {
+	// self-check of the fast path against the plain one-shot function
+	dh := sha3.Sum256([]byte("c12"))
+	for n := uint64(0); n < 4; n++ {
+		var buf [40]byte
+		binary.LittleEndian.PutUint64(buf[:8], n)
+		copy(buf[8:], dh[:])
+		h := sha3.Sum256(buf[:])
+		if refWork(n, &dh) != binary.LittleEndian.Uint64(h[:8]) {
+			panic("c12: streaming sha3 differs from sha3.Sum256")
+		}
+	}
 }
 
 // refValid decides the claim with big integers.
@@ -267,14 +289,19 @@ func powOne(r *xs.Result, subs []*powSubject, d uint64, searchMax uint64) {
 				powMismatch(r, si, s, d, n, code, true)
 			}
 			// the claim one notch harder than the nonce actually meets must be refused: the largest d' the work supports
-			if n >= uint64(len(s.work)) || true {
-				w := refWork(n, &s.dh)
-				if dd, ok := leastUnsupported(w); ok {
-					code2 := codeCheck(s, dd, n)
+			w := refWork(n, &s.dh)
+			if dd, ok := leastUnsupported(w); ok {
+				code2 := codeCheck(s, dd, n)
+				r.Count("pow_evaluations", 1)
+				r.Count("pow_just_too_hard_claims", 1)
+				if code2 {
+					powMismatch(r, si, s, dd, n, true, false)
+				}
+				// ... and the claim just below it must be honoured
+				if dd > 1 {
 					r.Count("pow_evaluations", 1)
-					r.Count("pow_just_too_hard_claims", 1)
-					if code2 {
-						powMismatch(r, si, s, dd, n, true, refValid(dd, w))
+					if !codeCheck(s, dd-1, n) {
+						powMismatch(r, si, s, dd-1, n, false, true)
 					}
 				}
 			}
@@ -290,27 +317,19 @@ func powOne(r *xs.Result, subs []*powSubject, d uint64, searchMax uint64) {
 }
 
 // leastUnsupported returns the least difficulty d' (if it fits 64 bits) whose threshold exceeds work, i.e. the least
-// claim the nonce does NOT support: work < 2^64 − ⌊2^64/d'⌋  ⇔  ⌊2^64/d'⌋ < 2^64 − work.
+// claim the nonce does NOT support: work < 2^64 − ⌊2^64/d'⌋ ⇔ ⌊2^64/d'⌋ < 2^64 − work =: gap ⇔ d' > 2^64/gap.
 func leastUnsupported(work uint64) (uint64, bool) {
 	gap := new(big.Int).Sub(two64, new(big.Int).SetUint64(work)) // >= 1
-	// least d' with floor(2^64/d') <= gap-1, i.e. floor(2^64/d') < gap ; d' = floor(2^64/gap)+1
 	d := new(big.Int).Quo(two64, gap)
 	d.Add(d, bigOne)
-	for i := 0; i < 4; i++ { // settle the floor effects exactly with the reference predicate
-		if !d.IsUint64() {
-			return 0, false
-		}
-		if !refValid(d.Uint64(), work) {
-			prev := new(big.Int).Sub(d, bigOne)
-			if prev.Sign() > 0 && !refValid(prev.Uint64(), work) {
-				d = prev
-				continue
-			}
-			return d.Uint64(), true
-		}
-		d.Add(d, bigOne)
+	if !d.IsUint64() {
+		return 0, false
 	}
-	return 0, false
+	dd := d.Uint64()
+	if refValid(dd, work) || (dd > 1 && !refValid(dd-1, work)) {
+		panic(fmt.Sprintf("reference self-check failed: least unsupported claim for work %d computed as %d", work, dd))
+	}
+	return dd, true
 }
 
 func boundaryWorks(t uint64) []uint64 {
@@ -456,33 +475,6 @@ func convPoints(r *xs.Result, ds []uint64) {
 		}
 		if a != nil {
 			prevA, prevP = a, got
-		}
-	}
-}
-
-// sanityConstants compares the independently written reference table with the configured constants; a difference means
-// the check would judge a different configuration than it states (harness problem, not a finding).
-func sanityConstants() {
-	type pair struct {
-		name      string
-		got, want uint64
-	}
-	for _, p := range []pair{
-		{"AccountBlockBasePlasma", constants.AccountBlockBasePlasma, refBasePlasma},
-		{"ABByteDataPlasma", constants.ABByteDataPlasma, refBytePlasma},
-		{"PoWDifficultyPerPlasma", constants.PoWDifficultyPerPlasma, refDiffPerPlasma},
-		{"MaxPoWPlasmaForAccountBlock", constants.MaxPoWPlasmaForAccountBlock, refMaxPowPlasma},
-		{"CostPerFusionUnit", constants.CostPerFusionUnit, refUnitCost},
-		{"PlasmaPerFusionUnit", constants.PlasmaPerFusionUnit, refUnitPlasma},
-		{"MaxFusionUnitsPerAccount", constants.MaxFusionUnitsPerAccount, refMaxUnits},
-		{"MaxPlasmaForAccountBlock", constants.MaxPlasmaForAccountBlock, refBlockCap},
-		{"MaxDataLength", constants.MaxDataLength, refMaxData},
-		{"EmbeddedSimple", constants.AlphanetPlasmaTable.EmbeddedSimple, refEmbeddedSimple},
-		{"EmbeddedWWithdraw", constants.AlphanetPlasmaTable.EmbeddedWWithdraw, refEmbeddedWith},
-		{"EmbeddedWDoubleWithdraw", constants.AlphanetPlasmaTable.EmbeddedWDoubleWithdraw, refEmbeddedDouble},
-	} {
-		if p.got != p.want {
-			panic(fmt.Sprintf("reference table disagrees with vm/constants: %s = %d, reference %d", p.name, p.got, p.want))
 		}
 	}
 }
